@@ -60,7 +60,11 @@ func (w *world) modelReset(seq, oldApp int64) {
 	w.firstSeq = seq + 1
 	w.lastSize = -1
 	w.resetNoPut = true
-	w.resetUnwritten = seq > oldApp || seq < 0
+	// no index entry behind seq: never written (beyond everything appended), or its index page was collected
+	w.resetUnwritten = seq > oldApp || seq < 0 || seq/indexItemsPerPage < w.collectedIndex
+	if oldApp > w.maxEver {
+		w.maxEver = oldApp
+	}
 	if seq/indexItemsPerPage != oldApp/indexItemsPerPage && seq >= 0 {
 		w.indexJumps++
 		w.classes["reset-into-another-index-page"]++
@@ -83,24 +87,32 @@ func (w *world) closedAfterReset() {
 func (w *world) genResetTarget(app int64) (seq int64, kind string) {
 	t := w.t
 	k := rapid.IntRange(0, 9).Draw(t, "resetKind")
+	// a forward reset goes beyond everything the log ever held: after an earlier reset cut off a
+	// tail, the index entries of that tail are stale (they may point to data pages behind the
+	// write cursor) and the forward-only handshake code cannot land on them
+	base := app
+	if w.maxEver > base && k < 6 {
+		base = w.maxEver
+		w.classes["reset-higher-goes-beyond-a-cut-off-tail"]++
+	}
 	switch {
 	case k < 4:
-		return app + int64(rapid.IntRange(1, 6).Draw(t, "resetUp")), "higher"
+		return base + int64(rapid.IntRange(1, 6).Draw(t, "resetUp")), "higher"
 	case k == 4:
 		if w.indexJumps < 2 {
 			// to just below the next index-page boundary: the appends that follow cross it
-			next := (app/indexItemsPerPage + 1) * indexItemsPerPage
-			if app < 0 {
+			next := (base/indexItemsPerPage + 1) * indexItemsPerPage
+			if base < 0 {
 				next = indexItemsPerPage
 			}
 			return next - 1 - int64(rapid.IntRange(0, 2).Draw(t, "beforeBoundary")), "higher(to-index-page-boundary)"
 		}
-		return app + 1000, "higher"
+		return base + 1000, "higher"
 	case k == 5:
 		if w.indexJumps < 2 {
-			return app + int64(rapid.IntRange(300000, 600000).Draw(t, "resetFar")), "higher(far)"
+			return base + int64(rapid.IntRange(300000, 600000).Draw(t, "resetFar")), "higher(far)"
 		}
-		return app + 1, "higher"
+		return base + 1, "higher"
 	case k < 8:
 		return app, "same"
 	}
@@ -110,6 +122,10 @@ func (w *world) genResetTarget(app int64) (seq int64, kind string) {
 		// handshake code can produce (it only moves forward); left out
 		w.classes["excluded_out_of_scope_lower-reset-after-cursor-rewind"]++
 		return app, "same"
+	}
+	if app >= indexItemsPerPage && app%indexItemsPerPage < 8 && rapid.IntRange(0, 1).Draw(t, "resetBackAcrossIndexPage") == 0 {
+		// the appended sequence is one of the first of its index page: back into the page before
+		return app/indexItemsPerPage*indexItemsPerPage - 1 - int64(rapid.IntRange(0, 2).Draw(t, "beforeBoundary")), "lower(back-across-index-page-boundary)"
 	}
 	seq = app - int64(rapid.IntRange(1, 6).Draw(t, "resetDown"))
 	if ack := w.q.AcknowledgedSeq(); app-ack >= 2 && rapid.IntRange(0, 2).Draw(t, "resetAboveAck") > 0 {
@@ -301,5 +317,90 @@ func (w *world) opResetDuringPut() {
 			w.fatalf("%v", err)
 		}
 		w.check(fmt.Sprintf("after append %d behind an append overlapped by setAppendedSeq", i+1))
+	}
+}
+
+// noteGC: the collector ran. Index pages below the page of the acknowledged sequence are gone
+// (generation only; the acknowledged position read here is >= the one GC worked with).
+func (w *world) noteGC() {
+	if p := w.q.AcknowledgedSeq() / indexItemsPerPage; p > w.collectedIndex {
+		w.collectedIndex = p
+		w.classes["gc-collected-an-index-page"]++
+	}
+}
+
+func (w *world) resetTo(seq int64, kind string) {
+	app := w.q.AppendedSeq()
+	w.logf("setAppendedSeq %d (%s; appended %d, acknowledged %d)", seq, kind, app, w.q.AcknowledgedSeq())
+	w.dropHeld("setAppendedSeq")
+	w.q.SetAppendedSeq(seq)
+	w.modelReset(seq, app)
+	w.classes["reset"]++
+	w.classes["reset-"+kind]++
+	w.checkReset(seq, seq, "after setAppendedSeq")
+	w.check("after setAppendedSeq")
+}
+
+// opResetBackAcrossIndexPage: the append position moves forward over an index-page boundary
+// (reset to just below it, appends across it), the consumer may catch up and the collector run -
+// the index page below the boundary is removed then -, and a reset takes the position back below
+// the boundary (API-legal, see the assumptions): the appends that follow need the lower index page
+// again, cross the boundary again and must be readable like all others, also after a reopen.
+func (w *world) opResetBackAcrossIndexPage() {
+	t := w.t
+	if w.cursorRewound || w.indexJumps > 0 {
+		t.Skip("index-page budget of the history used up")
+	}
+	app := w.q.AppendedSeq()
+	base := app
+	if w.maxEver > base {
+		base = w.maxEver
+	}
+	boundary := int64(indexItemsPerPage)
+	if base >= 0 {
+		boundary = (base/indexItemsPerPage + 1) * indexItemsPerPage
+	}
+	w.resetTo(boundary-1-int64(rapid.IntRange(0, 2).Draw(t, "beforeBoundary")), "higher(to-index-page-boundary)")
+	for past := int64(rapid.IntRange(0, 2).Draw(t, "pastBoundary")); w.q.AppendedSeq() < boundary+past; {
+		w.opPut()
+	}
+	w.check("after the appends across the index-page boundary")
+	collected := false
+	switch rapid.IntRange(0, 3).Draw(t, "consumer") {
+	case 0:
+	case 1:
+		// acknowledged up to a sequence behind the boundary, no collector yet
+		if err := w.ackTo(rapid.Int64Range(boundary, w.q.AppendedSeq()).Draw(t, "ack")); err != nil {
+			w.fatalf("%v", err)
+		}
+	default:
+		to := rapid.Int64Range(boundary, w.q.AppendedSeq()).Draw(t, "ack")
+		w.logf("ack %d", to)
+		if err := w.ackTo(to); err != nil {
+			w.fatalf("%v", err)
+		}
+		w.opGC()
+		collected = true
+	}
+	w.check("before the reset back across the index-page boundary")
+	w.resetTo(boundary-1-int64(rapid.IntRange(0, 3).Draw(t, "beforeBoundary")), "lower(back-across-index-page-boundary)")
+	w.classes["reset-back-across-index-page-boundary"]++
+	if collected {
+		w.classes["reset-back-into-a-collected-index-page"]++
+	}
+	switch rapid.IntRange(0, 4).Draw(t, "afterReset") {
+	case 0:
+		w.opReopen()
+		w.check("after the reset back across the index-page boundary and a reopen")
+	case 1:
+		w.opGC()
+	}
+	for n := boundary + int64(rapid.IntRange(0, 2).Draw(t, "pastBoundary")); w.q.AppendedSeq() < n; {
+		w.opPut()
+		w.check("after an append behind the reset back across the index-page boundary")
+	}
+	if rapid.IntRange(0, 2).Draw(t, "reopenAtTheEnd") == 0 {
+		w.opReopen()
+		w.check("after the appends behind the reset back across the index-page boundary and a reopen")
 	}
 }
